@@ -50,6 +50,49 @@ def stream_level(ctx, dobj, d, pkts, obs_list, route):
     return None
 
 
+MISSIONS = [
+    ("jpss/jpss1_geolocation_xtce_v1.xml", "jpss/J01_G011_LZ_2021-04-09T00-00-00Z_V01.DAT1", "CCSDSPacket", 0),
+    ("jpss/contrived_inheritance_structure.xml", "jpss/J01_G011_LZ_2021-04-09T00-00-00Z_V01.DAT1", "CCSDSPacket", 0),
+    ("test_xtce.xml", "jpss/J01_G011_LZ_2021-04-09T00-00-00Z_V01.DAT1", "CCSDSPacket", 0),
+    ("suda/suda_combined_science_definition.xml", "suda/sciData_2022_130_17_41_53.spl", "CCSDSPacket", 4),
+    ("idex/idex_combined_science_definition.xml", "idex/sciData_2023_052_14_45_05", "CCSDSPacket", 4),
+    ("ctim/ctim_xtce_v1.xml", "ctim/ccsds_2021_155_14_39_51", "CCSDSTelemetryPacket", 0),
+]
+TD = "/repo/tests/test_data/"
+
+
+def frame(path, skip, per_apid, cap):
+    """first `per_apid` packets of every APID (framed by the harness, not by the library)"""
+    raw = open(path, "rb").read()
+    out, seen, off = [], {}, 0
+    while off + skip + 6 <= len(raw) and len(out) < cap:
+        st = off + skip
+        n = 7 + raw[st + 4] * 256 + raw[st + 5]
+        if st + n > len(raw):
+            break
+        apid = ((raw[st] & 7) << 8) | raw[st + 1]
+        if seen.get(apid, 0) < per_apid:
+            seen[apid] = seen.get(apid, 0) + 1
+            out.append(list(raw[st:st + n]))
+        off = st + n
+    return out
+
+
+def mission_groups(q):
+    from harness import xread
+    groups = []
+    for xml, data, root, skip in MISSIONS:
+        if q and "ctim" in xml:
+            continue         # 9 500 parameters, ~250 fields per packet: minutes of TLC time; thorough tier only
+        d = xread.read(TD + xml, root)
+        head = open(TD + xml, "rb").read(3000).decode("utf-8", "ignore")
+        prefix = "xtce" if 'xmlns:xtce="' in head else ""
+        big = "suda" in xml or "idex" in xml or "ctim" in xml
+        pk = frame(TD + data, skip, (3 if big else 40) if q else (25 if big else 400), 60 if q and big else (120 if q else 3000))
+        groups.append({"defn": d, "pkts": pk, "route": ("file", TD + xml, prefix, root), "label": "mission:" + xml})
+    return groups
+
+
 def run(ctx):
     q = ctx.quick
     rng = ctx.rng
@@ -73,6 +116,11 @@ def run(ctx):
         groups.append({"defn": g.d, "pkts": pk, "route": ROUTES[i % len(ROUTES)], "label": f"random-{i}"})
     col = []
     st = dc.run_groups(ctx, "C01", groups, "e2e", gen_level=True, collect=col)
+    # ---- the bundled and mission documents through the independent XTCE reader (harness/xread.py), recorded packets
+    mg = mission_groups(q)
+    mst = dc.run_groups(ctx, "C01", mg, "mission", gen_level=True, jobs=len(mg), lines_per_file=1)
+    ctx.extra["mission_status_counts"] = mst
+    ctx.extra["mission_packets"] = {g["label"]: len(g["pkts"]) for g in mg}
     ctx.extra["model_status_counts"] = st
     ctx.extra["definitions"] = ndefs
     if st.get("ok", 0) < ndefs:
